@@ -512,11 +512,8 @@ func snapshot(native *native.NativeService, number uint64, hash ecommon.Hash, ta
 		return
 	}
 
-	if lastSeenHeight > 0 {
-		return
-	}
-
-	// try to search enough recent
+	// always search the recent ancestors: a signature found at the snapshot base (checkpoint header or an old vote)
+	// must not hide a more recent one
 	toSearch := len(snap.Signers) / 2
 	for i := 0; i < toSearch; i++ {
 		headerWS, err = getHeader(native, startHash, ctx.ChainID)
